@@ -419,6 +419,8 @@ def expected_markers(case: dict[str, Any]) -> list[str]:
 def check(case: dict[str, Any]) -> list[tuple[str, str]]:
     if case.get("kind") == "cli":
         return check_cli(case)
+    if case.get("kind") == "cli-sigint":
+        return check_cli_sigint(case)
     d = Path(tempfile.mkdtemp(prefix="vf-c15."))
     try:
         try:
@@ -638,9 +640,77 @@ def check_cli(case: dict[str, Any]) -> list[tuple[str, str]]:
         shutil.rmtree(d, ignore_errors=True)
 
 
+def check_cli_sigint(case: dict[str, Any]) -> list[tuple[str, str]]:
+    """A real Ctrl-C: SIGINT to a running command (the virtual ECU server, which runs until interrupted)."""
+    import signal
+    import subprocess
+
+    d = Path(tempfile.mkdtemp(prefix="vf-c15sig."))
+    out: list[tuple[str, str]] = []
+    try:
+        sock = d / "ecu.sock"
+        args = [sys.executable, "-c", "import sys; from gallia.cli.gallia import main; sys.argv[0] = 'gallia'; sys.exit(main())",
+                "script", "vecu", "rng", f"unix-lines://{sock}", "--seed", "3", "--artifacts-base", str(d / "art")]
+        if case["db"] == "on":
+            args += ["--db", str(d / "db.sqlite")]
+        if case["lock"]:
+            args += ["--lock-file", str(d / "lock")]
+        if case["post_hook"] == "ok":
+            args += ["--post-hook", f'echo "$GALLIA_EXIT_CODE" > "{d}/post.code"']
+        env = {k: v for k, v in os.environ.items() if not k.startswith("GALLIA_") or k == "GALLIA_VERIF"}
+        p = subprocess.Popen(args, cwd=d, env=env, stdout=subprocess.DEVNULL, stderr=subprocess.PIPE, text=True)
+        for _ in range(400):
+            if sock.exists() or p.poll() is not None:
+                break
+            time.sleep(0.05)
+        time.sleep(case.get("after", 0.3))
+        ctx = f"gallia {' '.join(args[3:])}, SIGINT after the server was up"
+        if p.poll() is not None:
+            return [("C15/cli/sigint/command-ended-early", f"{ctx}: exit status {p.returncode}; {p.stderr.read()[-300:]}")]
+        p.send_signal(signal.SIGINT)
+        try:
+            rc = p.wait(60)
+        except subprocess.TimeoutExpired:
+            p.kill()
+            p.wait()
+            return [("C15/cli/sigint/process-does-not-exit", f"{ctx}: still running 60 s after SIGINT")]
+        if rc not in (130, -signal.SIGINT):
+            out.append((f"C15/cli/sigint/exit-status/{rc}", f"{ctx}: exit status {rc}, expected 130 (or death by SIGINT)"))
+        metas = sorted((d / "art").glob("*/run-*/META.json"))
+        if len(metas) != 1:
+            out.append(("C15/cli/sigint/meta-json-missing", f"{ctx}: {len(metas)} META.json files"))
+        else:
+            meta = json.loads(metas[0].read_text())
+            if meta.get("exit_code") != 130:
+                out.append(("C15/cli/sigint/meta-exit-code", f"{ctx}: the process ended with {rc}, META.json says exit_code {meta.get('exit_code')}"))
+        if case["db"] == "on":
+            con = sqlite3.connect(d / "db.sqlite")
+            rows = con.execute("SELECT end_time, exit_code FROM run_meta").fetchall()
+            con.close()
+            if len(rows) != 1 or rows[0][0] is None or rows[0][1] != 130:
+                out.append(("C15/cli/sigint/db-run-meta", f"{ctx}: the process ended with {rc}, run_meta rows {rows}"))
+        if case["post_hook"] == "ok":
+            code = (d / "post.code").read_text().strip() if (d / "post.code").exists() else None
+            if code != "130":
+                out.append(("C15/cli/sigint/post-hook", f"{ctx}: post-hook saw GALLIA_EXIT_CODE={code!r}"))
+        if case["lock"]:
+            fd = os.open(d / "lock", os.O_RDWR | os.O_CREAT)
+            try:
+                fcntl.flock(fd, fcntl.LOCK_EX | fcntl.LOCK_NB)
+            except OSError:
+                out.append(("C15/cli/sigint/lock-not-released", ctx))
+            finally:
+                os.close(fd)
+        return out
+    finally:
+        shutil.rmtree(d, ignore_errors=True)
+
+
 def cli_cases() -> list[dict[str, Any]]:
     return [{"kind": "cli", "ecu": ecu, "db": db, "lock": lock, "post_hook": hook}
-            for ecu in (True, False) for db in ("off", "on", "garbage", "dir") for lock in (False, True) for hook in ("none", "fail", "signal")]
+            for ecu in (True, False) for db in ("off", "on", "garbage", "dir") for lock in (False, True) for hook in ("none", "fail", "signal")] + \
+        [{"kind": "cli-sigint", "db": db, "lock": lock, "post_hook": hook, "after": after}
+         for db in ("off", "on") for lock in (False, True) for hook in ("none", "ok") for after in (0.3, 1.2)]
 
 
 def _quiet_aiosqlite_threads() -> None:
@@ -673,13 +743,14 @@ def run_shard(spec: dict[str, Any], seed: int) -> Collector:
         if "pick" in spec:
             # quick tier: a seed-dependent handful, always with one run against a running ECU and one with a file that is no database
             rot = seed % len(cases)
-            cases = [c for c in cases if c["ecu"] and c["db"] == "on"][:1] + [c for c in cases if c["db"] == "garbage"][:1] + (cases[rot:] + cases[:rot])[: spec["pick"] - 2]
+            cases = [c for c in cases if c.get("ecu") and c["db"] == "on"][:1] + [c for c in cases if c["db"] == "garbage"][:1] + \
+                [c for c in cases if c["kind"] == "cli-sigint" and c["db"] == "on"][seed % 4:][:1] + (cases[rot:] + cases[:rot])[: spec["pick"] - 3]
         else:
             cases = cases[spec["part"]::spec["parts"]]
             col.exhaustive_parts.append("real command line in a child process: {ECU running, absent} x db {off, on, not a database, directory} x lock x post-hook {none, failing, killed}")
         for c in cases:
-            res = check_cli(c)
-            col.case(str(c), True, cls=f"cli/{'ecu' if c['ecu'] else 'no-ecu'}/db-{c['db']}", sample=c)
+            res = check(c)
+            col.case(str(c), True, cls=(f"cli/{'ecu' if c['ecu'] else 'no-ecu'}/db-{c['db']}" if c["kind"] == "cli" else f"cli/sigint/db-{c['db']}"), sample=c)
             for b, m in res:
                 col.violation(b, c, m)
         return col
